@@ -1645,9 +1645,18 @@ fn process_stream_search_params<T: Read + Write>(
     // todo use parallel iterator
     // todo break after some max time/max amount of messages to improve reaction time
     let mut i = start_idx;
-    let stream_msgs_len = stream.filtered_msgs.len();
+    // streams without filters dont use filtered_msgs. The stream msgs are all_msgs then:
+    let stream_msgs_len = if stream.filters_active {
+        stream.filtered_msgs.len()
+    } else {
+        std::cmp::min(stream.all_msgs_last_processed_len, all_msgs.len())
+    };
     while i < stream_msgs_len {
-        let msg: &adlt::dlt::DltMessage = &all_msgs[stream.filtered_msgs[i]];
+        let msg: &adlt::dlt::DltMessage = if stream.filters_active {
+            &all_msgs[stream.filtered_msgs[i]]
+        } else {
+            &all_msgs[i]
+        };
         let matches = match_filters(msg, &filters);
 
         if matches {
